@@ -6,6 +6,8 @@
   `Nat` and a schedule may name any of them, over any number of threads.
 -/
 import XsVerif.Lemmas.Threads
+import XsVerif.Lemmas.ThreadsWiden
+import XsVerif.Lemmas.ThreadsCache
 
 namespace XsVerif.Props.C18
 open XsVerif.Threads
@@ -110,10 +112,11 @@ theorem memo_benign {K V : Type} [DecidableEq K] (f : K → V) (key : Nat → K)
 
 /-! ### xsi:type widening of identity constraints -/
 
-/-- **xsi_widening_schedule_independent.**  With the current step order (bind, then publish) at
-    function-call granularity, and with the proposed patch at statement granularity: every thread, under
-    every interleaving, collects the key fields of the selected child — exactly what a single-threaded run
-    does. -/
+/-- **xsi_widening_schedule_independent.**  Single (type, child) pair.  `Mode.patched` is the CURRENT tree
+    (52f30cd: bind, then publish; ee393a6: `selected_by.add` unconditional) at statement granularity, `curCall`
+    the tree before ee393a6 at function-call granularity: every thread, under every interleaving, collects the
+    key fields of the selected child — exactly what a single-threaded run does.  The general statement (any
+    finite set of pairs, any programs) is `xsi_widening_own_pairs_collected` below. -/
 theorem xsi_widening_schedule_independent (m : Mode) (hm : m = .curCall ∨ m = .patched)
     (sched : List Nat) (t : Nat) (b : Bool) :
     (wexec m sched winit).pc t = .fin b → b = true := by
@@ -134,12 +137,217 @@ theorem xsi_widening_sequential (m : Mode) :
 theorem xsi_widening_old_order_counterexample :
     (wexec .old [0, 0, 1, 1] winit).pc 1 = .fin false := by decide
 
-/-- C18-F2 (current tree, statement granularity): thread 0 stores `elements[e]`, is pre-empted before
+/-- C18-F2 (tree before ee393a6, statement granularity; `Mode.cur`): thread 0 stores `elements[e]`, is pre-empted before
     `selected_by.add`; thread 1 finds `e in elements`, skips, publishes and validates the child without
     collecting.  Not reachable when switches happen only at library function calls
     (`xsi_widening_schedule_independent` for `curCall`). -/
 theorem xsi_widening_statement_level_counterexample :
     (wexec .cur [0, 0, 0, 1, 1, 1, 1] winit).pc 1 = .fin false := by decide
+
+/-! ### xsi:type widening, statement granularity, any finite set of (declaration, type, identity) triples,
+        any per-thread programs (port of the current tree: Model/ThreadsWiden.lean) -/
+
+section widening
+open XsVerif.Threads.XW
+
+/-- **xsi_widening_own_pairs_collected.**  Current tree (`addInside = false`: ee393a6), every schedule, any
+    number of threads, any programs, any schema tables, any initial state in which the published pairs are
+    bound (a fresh schema: none is published): when a thread validates a child `e`, the identities it iterates
+    over contain the identity of EVERY pair `p` with `e ∈ sel p` whose widening this thread's own walk has
+    passed before (`o.seen`) — whether the thread did the widening itself, found it published by another
+    thread, or raced with it statement by statement.  `WF`: every call of `update_elements` for a pair visits
+    the same set of elements, in any order. -/
+theorem xsi_widening_own_pairs_collected (sch : Sch) (v : Variant) (hv : v.addInside = false)
+    (s₀ : Sh) (h₀ : Closed sch s₀) (prog : Nat → List Task) (hw : WF sch prog) (sched : List Nat) (t : Nat) (o : Obs) :
+    o ∈ ((XW.exec sch v sched (XW.init s₀ prog)).th t).obs →
+    ∀ p, p ∈ o.seen → o.e ∈ sch.sel p → sch.idOf p ∈ o.ids := by
+  intro ho
+  exact ((cinv_exec sch v hv sched _ (cinv_init sch s₀ h₀ prog hw)).ths t).obs o ho
+
+/-- … and it contains every identity bound to `e` by the build (the state before the threads started), and
+    nothing that is not bound to `e` in the shared state. -/
+theorem xsi_widening_static_pairs_collected (sch : Sch) (v : Variant) (s₀ : Sh) (prog : Nat → List Task)
+    (sched : List Nat) (t : Nat) (o : Obs) :
+    let c := XW.exec sch v sched (XW.init s₀ prog)
+    o ∈ (c.th t).obs →
+    (∀ i, Fact.selBy o.e i ∈ s₀ → i ∈ o.ids) ∧ (∀ i, i ∈ o.ids → Fact.selBy o.e i ∈ c.sh) := by
+  intro c ho
+  exact ((sinv_exec sch v s₀ sched _ (sinv_init s₀ prog)).ths t).obs o ho
+
+/-- **xsi_widening_no_thin_air.**  Every fact of the shared state was there before the threads started or is
+    generated by a pair that the program of some thread widens (`Gen`): a race never binds an element to an
+    identity that a sequential run of the same documents would not bind.  (Every variant of the code.) -/
+theorem xsi_widening_no_thin_air (sch : Sch) (v : Variant) (s₀ : Sh) (prog : Nat → List Task) (hw : WF sch prog)
+    (sched : List Nat) (f : Fact) :
+    f ∈ (XW.exec sch v sched (XW.init s₀ prog)).sh → f ∈ s₀ ∨ Gen sch (Src prog) f :=
+  (uinv_exec sch v (Src prog) s₀ sched _ (uinv_init sch s₀ prog hw)).fed f
+
+/-- **xsi_widening_final_state_schedule_independent.**  When every thread has run its program to the end,
+    the shared state is, as a set, exactly `s₀ ∪ {facts generated by the widened pairs}` — the right-hand
+    side does not mention the schedule, so every interleaving (the sequential ones included) of every number
+    of threads leaves the schema in the same state. -/
+theorem xsi_widening_final_state_schedule_independent (sch : Sch) (v : Variant) (hv : v.addInside = false)
+    (s₀ : Sh) (h₀ : Closed sch s₀) (prog : Nat → List Task) (hw : WF sch prog) (sched : List Nat) :
+    let c := XW.exec sch v sched (XW.init s₀ prog)
+    (∀ t, (c.th t).finished = true) → ∀ f, f ∈ c.sh ↔ (f ∈ s₀ ∨ Gen sch (Src prog) f) := by
+  intro c hfin f
+  have hu := uinv_exec sch v (Src prog) s₀ sched _ (uinv_init sch s₀ prog hw)
+  have hs := sinv_exec sch v s₀ sched _ (sinv_init s₀ prog)
+  have hc := cinv_exec sch v hv sched _ (cinv_init sch s₀ h₀ prog hw)
+  have hk := kok_exec sch v prog sched _ (kok_init s₀ prog)
+  constructor
+  · exact hu.fed f
+  · intro h
+    rcases h with h | h
+    · exact hs.sub f h
+    · have bound : ∀ p, Src prog p → Fact.xsi p ∈ c.sh ∧ Bound sch c.sh p := by
+        intro p ⟨t, ord, ht⟩
+        have hf := hfin t
+        simp only [Th.finished, Bool.and_eq_true, List.isEmpty_iff, beq_iff_eq] at hf
+        rcases hk t p ord ht with h1 | h1 | h1
+        · rw [hf.1] at h1; simp at h1
+        · exact (hc.ths t).seen p h1
+        · rw [hf.2] at h1; exact absurd h1 (by simp [PcAt])
+      cases f with
+      | xsi p => exact (bound p h).1
+      | elem i e =>
+        obtain ⟨p, hp, hi, he⟩ := h
+        subst hi
+        exact ((bound p hp).2 e he).2
+      | selBy e i =>
+        obtain ⟨p, hp, hi, he⟩ := h
+        subst hi
+        exact ((bound p hp).2 e he).1
+
+/-- **xsi_widening_snapshot_no_error.**  With the iteration over a snapshot of `selected_by`
+    (notes/fixes/C18-F3 patch) no thread ever leaves a call with RuntimeError, in any schedule. -/
+theorem xsi_widening_snapshot_no_error (sch : Sch) (v : Variant) (hv : v.live = false) (s₀ : Sh)
+    (prog : Nat → List Task) (sched : List Nat) (t : Nat) :
+    ((XW.exec sch v sched (XW.init s₀ prog)).th t).pc ≠ .err :=
+  noerr_exec sch v hv sched _ (fun _ => by simp [XW.init, initTh]) t
+
+/-- FULL statement (false for the current tree): no thread ever leaves a call with RuntimeError.
+    **xsi_widening_live_no_error_partial**: it holds for the live iteration under the guard `OneId`: no element
+    can be bound to two different identities (by the build or by any widened pair) and no element is bound to
+    two identities when the threads start.  The guard is exactly what C18-F3 violates
+    (`xsi_widening_live_iteration_counterexample`). -/
+theorem xsi_widening_live_no_error_partial (sch : Sch) (v : Variant) (s₀ : Sh) (prog : Nat → List Task)
+    (hw : WF sch prog) (hone : OneId sch (Src prog) s₀) (hlen : ∀ e, (selOf s₀ e).length ≤ 1)
+    (sched : List Nat) (t : Nat) :
+    ((XW.exec sch v sched (XW.init s₀ prog)).th t).pc ≠ .err := by
+  have h := linv_exec sch v (Src prog) s₀ hone sched _
+    (⟨uinv_init sch s₀ prog hw, hlen, fun _ => trivial⟩ : LInv sch (Src prog) s₀ (XW.init s₀ prog))
+  intro he
+  have := h.pcs t
+  rw [he] at this
+  exact this
+
+/-- two element declarations (pairs 0 and 1, identities 0 and 1) whose xsi:type shares the child `7` -/
+def f3Sch : Sch := { sel := fun _ => [7], idOf := fun p => p }
+def f3Prog : Nat → List Task
+  | 0 => [.widen 0 [7], .child 7]
+  | 1 => [.widen 1 [7], .child 7]
+  | _ => []
+
+/-- **C18-F3** (current tree, `for identity in self.selected_by` over the live set): thread 0 has bound child 7
+    to identity 0 and is inside the loop; thread 1 binds the same child to identity 1; the next `next()` of
+    thread 0's set iterator raises `RuntimeError: Set changed size during iteration`.  A single-threaded run
+    of either program, and the snapshot variant under the same schedule, do not. -/
+theorem xsi_widening_live_iteration_counterexample :
+    ((XW.exec f3Sch .current [0, 0, 0, 0, 0, 0, 0, 0, 0, 0, 1, 1, 1, 1, 1, 0] (XW.init [] f3Prog)).th 0).pc = .err
+    ∧ ((XW.exec f3Sch .snapshot [0, 0, 0, 0, 0, 0, 0, 0, 0, 0, 1, 1, 1, 1, 1, 0, 0] (XW.init [] f3Prog)).th 0).obs
+        = [⟨7, [0], [0]⟩] := by
+  decide
+
+/-- the schedule of C18-F2 in the general model: with `selected_by.add` inside the `if` (tree before ee393a6)
+    thread 1 finds `e in elements`, skips the binding, publishes, and iterates over nothing -/
+theorem xsi_widening_before_F2_counterexample :
+    let prog : Nat → List Task := fun _ => [.widen 0 [7], .child 7]
+    ((XW.exec f3Sch .beforeF2 [0, 0, 0, 0, 1, 1, 1, 1, 1, 1, 1] (XW.init [] prog)).th 1).obs = [⟨7, [], [0]⟩] := by
+  decide
+
+end widening
+
+/-! ### the benign-race family: every memo cache of the library (Model/ThreadsCache.lean) -/
+
+section caches
+open XsVerif.Threads.Cache
+
+/-- **cache_benign_all_schedules.**  One machine for `functools.cached_property`, `lru_cache` behind
+    `SchemaCache`, `schema_cached_property`: whatever the interleaving of any number of threads, each running
+    any program of calls, cache bypasses, `clear()`s and evictions, starting from any store whose entries are
+    values of the function: every call returns the value of the function. -/
+theorem cache_benign_all_schedules {K V : Type} [DecidableEq K] (f : K → V) (m₀ : Store K V)
+    (h₀ : ∀ k v, m₀ k = some v → v = f k) (prog : Nat → List (Op K)) (sched : List Nat) (t : Nat) (k : K) (v : V) :
+    (k, v) ∈ ((Cache.exec f sched (Cache.init m₀ prog)).th t).rets → v = f k := by
+  intro h
+  exact ((Cache.cinv_exec f prog sched _ (Cache.cinv_init f m₀ h₀ prog)).ths t).rets (k, v) h
+
+/-- **cache_results_sequential.**  A thread that has run its program has received, call by call and in
+    order, exactly what the uncached sequential program computes; and the store still holds only values of
+    the function. -/
+theorem cache_results_sequential {K V : Type} [DecidableEq K] (f : K → V) (m₀ : Store K V)
+    (h₀ : ∀ k v, m₀ k = some v → v = f k) (prog : Nat → List (Op K)) (sched : List Nat) (t : Nat) :
+    let c := Cache.exec f sched (Cache.init m₀ prog)
+    (c.th t).finished = true →
+      (c.th t).rets = (calls (prog t)).map (fun k => (k, f k)) ∧ (∀ k v, c.memo k = some v → v = f k) := by
+  intro c hfin
+  have h := Cache.cinv_exec f prog sched _ (Cache.cinv_init f m₀ h₀ prog)
+  refine ⟨?_, h.memo⟩
+  have ht := h.ths t
+  have ho := ht.order
+  simp only [Th.finished, Bool.and_eq_true, List.isEmpty_iff] at hfin
+  have hidle : pend (c.th t).pc = [] := by
+    cases hp : (c.th t).pc <;> simp_all [PC.isIdle, pend]
+  rw [hfin.1, hidle] at ho
+  simp only [calls, List.append_nil] at ho
+  rw [← ho]
+  exact rets_eq_of_sound f _ ht.rets
+
+/-- **idempotent deterministic writes commute** (and writing twice is writing once) -/
+theorem idempotent_writes_commute {K V : Type} [DecidableEq K] (f : K → V) (k k' : K) (s : Store K V) :
+    put k (f k) (put k' (f k') s) = put k' (f k') (put k (f k) s) ∧ put k (f k) (put k (f k) s) = put k (f k) s :=
+  ⟨put_comm f k k' s, put_idem k (f k) s⟩
+
+/-- the store after any sequence of such writes depends only on the SET of keys written: any reordering,
+    duplication or loss of duplicates of the writes of racing threads gives the same store -/
+theorem writes_order_irrelevant {K V : Type} [DecidableEq K] (f : K → V) (l₁ l₂ : List K) (s : Store K V)
+    (h : ∀ x, x ∈ l₁ ↔ x ∈ l₂) : puts f l₁ s = puts f l₂ s := by
+  funext x
+  rw [puts_apply, puts_apply]
+  by_cases h1 : x ∈ l₁
+  · simp [h1, (h x).1 h1]
+  · have h2 : x ∉ l₂ := fun hx => h1 ((h x).2 hx)
+    simp [h1, h2]
+
+/-- **scratch_skip_safe.**  `text_decode(text)` on the shared scratch context (validation='skip') returns
+    the pure value to every thread under every interleaving with any other users of the scratch context
+    (skip or lax, with or without pattern facets), from any state of the scratch context. -/
+theorem scratch_skip_safe (user : Nat → SUser) (sc : Scratch) (sched : List Nat) (t : Nat) (v : Nat) (ok : Bool) :
+    ((sexec user sched (sinit sc)).pc t) = .fin v ok → v = (user t).val := by
+  intro h
+  have := sexec_ok user sched (sinit sc) (fun _ => trivial) t
+  rw [h] at this
+  exact this
+
+/-- `text_is_valid(text)` alone on the scratch context gives the verdict of the type, from any scratch state -/
+theorem scratch_lax_alone (user : Nat → SUser) (sc : Scratch) (h : (user 0).lax = true) :
+    (sexec user [0, 0, 0, 0, 0, 0, 0, 0] (sinit sc)).pc 0 = .fin (user 0).val (user 0).expected := by
+  cases hp : (user 0).pat with
+  | none => simp [sexec, sstep, sinit, upd, hp, h, SUser.expected]
+  | some p =>
+    cases hr : (user 0).rej p <;> simp [sexec, sstep, sinit, upd, hp, h, hr, SUser.expected]
+
+/-- FULL statement (false): `text_is_valid` on the shared scratch context returns the verdict of the type
+    under every interleaving.  Witness: thread 0's text is rejected by its pattern, the error is collected in
+    the shared list; thread 1 starts a use and clears the list; thread 0 reads `not errors` = True. -/
+theorem scratch_lax_race_counterexample :
+    let user : Nat → SUser := fun _ => { lax := true, pat := some 5, val := 1, rej := fun _ => true }
+    (user 0).expected = false ∧
+    (sexec user [0, 0, 0, 0, 0, 0, 0, 1, 0] (sinit ⟨none, 0⟩)).pc 0 = .fin 1 true := by
+  decide
+
+end caches
 
 /-! ### non-vacuity -/
 
@@ -159,5 +367,49 @@ example : retVal (memoEx.pc 0) = some 49 ∧ retVal (memoEx.pc 1) = some 49 ∧ 
   decide
 
 example : (wexec .patched [0, 0, 0, 1, 1, 1, 1, 1] winit).pc 1 = .fin true := by decide
+
+/-- two declarations share a child; both threads finish under an interleaved schedule (snapshot variant),
+    each saw its own identity, the final state is the one `xsi_widening_final_state_schedule_independent` names -/
+example :
+    let c := XW.exec f3Sch .snapshot [0, 1, 0, 1, 0, 1, 0, 1, 0, 1, 0, 1, 0, 1, 0, 1, 0, 1, 0, 1, 0, 1, 0, 1, 0, 1] (XW.init [] f3Prog)
+    (c.th 0).finished = true ∧ (c.th 1).finished = true ∧
+    (c.th 0).obs = [⟨7, [0, 1], [0]⟩] ∧ (c.th 1).obs = [⟨7, [0, 1], [1]⟩] ∧
+    c.sh = [.elem 0 7, .elem 1 7, .selBy 7 0, .selBy 7 1, .xsi 0, .xsi 1] := by decide
+
+example : XW.Closed f3Sch [] := by intro p h; simp at h
+
+/-- the guard of `xsi_widening_live_no_error_partial` is satisfiable with real widening: one declaration, one pair -/
+example : XW.OneId f3Sch (XW.Src (fun t => if t < 3 then [.widen 0 [7], .child 7] else [])) [] := by
+  intro e i j hi hj
+  have key : ∀ k, XW.Pot f3Sch (XW.Src (fun t => if t < 3 then [XW.Task.widen 0 [7], .child 7] else [])) [] e k → k = 0 := by
+    intro k hk
+    rcases hk with hk | ⟨p, ⟨t, ord, hp⟩, hk, _⟩
+    · simp at hk
+    · simp only at hp
+      split at hp
+      · simp at hp; rw [← hk, hp.1]; rfl
+      · simp at hp
+  rw [key i hi, key j hj]
+
+example : XW.WF f3Sch f3Prog := by
+  intro t p ord h e
+  match t with
+  | 0 => simp [f3Prog] at h; simp [h.2, f3Sch]
+  | 1 => simp [f3Prog] at h; simp [h.2, f3Sch]
+  | _ + 2 => simp [f3Prog] at h
+
+/-- two visits of one pair in different orders (the selector's result is a set), both well-formed -/
+example :
+    let sch : XW.Sch := { sel := fun _ => [1, 2], idOf := fun _ => 0 }
+    let prog : Nat → List XW.Task := fun t => if t = 0 then [.widen 0 [1, 2], .child 2] else [.widen 0 [2, 1], .child 1]
+    let c := XW.exec sch .current [0, 1, 0, 1, 0, 1, 0, 1, 0, 1, 0, 1, 0, 1, 0, 1, 0, 1, 0, 1, 0, 1, 0, 1, 0, 1, 0, 1, 0, 1] (XW.init [] prog)
+    (c.th 0).obs = [⟨2, [0], [0]⟩] ∧ (c.th 1).obs = [⟨1, [0], [0]⟩] := by decide
+
+/-- two threads, one clears while the other is between look-up and store -/
+example :
+    let prog : Nat → List (Cache.Op Nat) := fun t => if t = 0 then [.call 3, .call 3] else [.call 3, .clear, .call 4]
+    let c := Cache.exec (fun k : Nat => k + 10) [0, 0, 1, 1, 0, 1, 1, 1, 0, 0, 0, 0, 1, 1, 1, 1, 0, 0] (Cache.init Cache.empty prog)
+    (c.th 0).rets = [(3, 13), (3, 13)] ∧ (c.th 1).rets = [(3, 13), (4, 14)] ∧ (c.th 0).finished = true := by
+  decide
 
 end XsVerif.Props.C18
